@@ -2,7 +2,7 @@
 SPECIFICATION Spec
 CONSTANTS
   D = {"A", "B"}
-  DirOptions = {{"A"}, {"A", "B"}}
+  DirOptions = {{}, {"A"}, {"A", "B"}}
   MaxFsOps = 2
   MaxConfs = 2
   MaxWids = 3
@@ -14,6 +14,7 @@ CONSTANTS
   FIX_READD = TRUE
   FIX_STALE = TRUE
   FIX_RENAMEDIR = TRUE
+  FIX_SCANWATCHED = TRUE
   RECORD = FALSE
 INVARIANTS TypeOK Bounded WatchesOK
 PROPERTIES Converges ErrConverges Settles ConfigureFresh
